@@ -681,7 +681,24 @@ class Scheduler:
         return [{"op": "build", "what": "value", "value": model.jsonable(host), "dst": d0},
                 {"macro": "inside_of", "of": {"a": d0}}]
 
+    def attach_keys(self, world, step):
+        """Record the geometric key of every boundary curve a step selects by index."""
+        if step is None or "macro" in step:
+            return step
+        for kname, keyname, slotname in (("k", "kkey", "b" if step.get("op") == "contains_jordan" else "a"),
+                                         ("ka", "kakey", "a"), ("kb", "kbkey", "b")):
+            if kname in step and step.get(slotname) in world.slots:
+                live = world.slots[step[slotname]].live
+                if kernel.kind(world.slots[step[slotname]].V) in ("C", "D"):
+                    jordans = live.jordans
+                    if 0 <= step[kname] < len(jordans):
+                        step[keyname] = [float(c) for c in ops._chain_key(jordans[step[kname]])]
+        return step
+
     def next_step(self, world):
+        return self.attach_keys(world, self._next_step(world))
+
+    def _next_step(self, world):
         if self.pending:
             return self.pending.pop(0)
         r = self.rng
@@ -831,6 +848,9 @@ class Scheduler:
         return self._oracle_flags({"op": kind, "a": a, "b": b})
 
     def resolve_macro(self, world, macro):
+        return self.attach_keys(world, self._resolve_macro(world, macro))
+
+    def _resolve_macro(self, world, macro):
         """Turn a queued macro into a concrete step (needs the heap after the previous step)."""
         of = macro["of"]
         if macro["macro"] == "inside_of":
